@@ -420,6 +420,7 @@ func TestSequences(t *testing.T) {
 				prev = append(prev, q)
 			}
 			sort.Strings(prev)
+			rec.Eval(1) // every package converted within a history is compared on its own
 			if g, err := simp.Import(p); err == nil && hasMethods(g) {
 				rec.NT(p + "|" + strings.Join(prev, ","))
 			}
